@@ -89,6 +89,9 @@ type Sim struct {
 	Log        []string // event log (controller decisions, notes)
 	logOn      bool
 	Notes      []string
+	reaping    atomic.Bool
+	allConns   []*SimConn
+	disks      []*Disk
 	deadInst   map[int]bool
 	rewriting  map[int]bool // instance currently inside RewriteLog (engine.mut held)
 	// hooks for profiles
@@ -175,6 +178,11 @@ func (s *Sim) install() {
 }
 
 func (s *Sim) uninstall() {
+	s.reap()
+	// descriptors of instances that were never shut down (the run simply ends) must not accumulate
+	for _, d := range s.disks {
+		d.CloseAll()
+	}
 	verifhook.Install(nil)
 	curSim.Store(nil)
 }
@@ -198,7 +206,50 @@ func (s *Sim) taskFor(g uint64) *Task {
 	return t
 }
 
+// reap ends the goroutines of the simulated system at the end of a run, as far as they can be reached:
+// parked tasks are told to exit, connections are closed, and the fake clock is moved far enough for every
+// ticker loop to wake up once and exit at its first hook. Otherwise each run would leave its instances
+// reachable for ever (the system under test calls runtime.GC() on every write under a memory limit, so a
+// growing heap makes later runs of the same worker process slower and slower).
+func (s *Sim) reap() {
+	defer func() { _ = recover() }()
+	s.reaping.Store(true)
+	s.passAll.Store(false)
+	s.mu.Lock()
+	var parked []*Task
+	for _, t := range s.tasks {
+		if t.Parked && !t.Done {
+			t.kill = true
+			t.Parked = false
+			parked = append(parked, t)
+		}
+	}
+	conns := s.allConns
+	s.allConns = nil
+	s.mu.Unlock()
+	for _, t := range parked {
+		select {
+		case t.wake <- struct{}{}:
+		default:
+		}
+	}
+	for _, c := range conns {
+		_ = c.Close()
+	}
+	for i := 0; i < 3; i++ {
+		synctest.Wait()
+		time.Sleep(time.Hour)
+	}
+	synctest.Wait()
+}
+
 func (s *Sim) park(site string, spin bool) {
+	if s.reaping.Load() {
+		if g := goid(); g != s.ctrl {
+			runtime.Goexit()
+		}
+		return
+	}
 	if strings.HasPrefix(site, "ks.") {
 		s.ksCalls.Add(1)
 	}
